@@ -35,8 +35,9 @@ def classes(X, tag):
 
 
 def mk_a(HA, rnd, buf=None):
-    return HA(x=rnd.choice([0.5, 1.5, -3.0]), count=rnd.randrange(10), v=[rnd.random() for _ in range(rnd.choice([1, 2, 3]))],
-              name=rnd.choice(["", "ab", "héllo"]), _buffer=buf)
+    # fixed sizes of the dynamic parts, so that one value fits in place of another (assignments of fitting values)
+    return HA(x=rnd.choice([0.5, 1.5, -3.0]), count=rnd.randrange(10), v=[rnd.random() for _ in range(2)],
+              name=rnd.choice(["ab", "cd", "xy"]), _buffer=buf)
 
 
 def model_of(X, h):
@@ -246,6 +247,7 @@ def hyb_eq(X, a, b):
 def run_c19(tier, seed):
     X = grammar.xo()
     rnd = random.Random(seed)
+    samples = []
     HA, HB, HC, HD = classes(X, grammar.uniq("J"))
     evals = 0
     distinct = set()
@@ -269,8 +271,11 @@ def run_c19(tier, seed):
             except Exception as e:  # noqa
                 bad(f"dict:raised:{type(h).__name__}:{type(e).__name__}", problem=str(e)[:200])
                 continue
+            if len(samples) < 2 and h is d:
+                samples.append({"class": type(h).__name__, "dictionary": repr(dct)[:300]})
             if not hyb_eq(X, h, h2):
-                bad(f"dict:value:{type(h).__name__}", original=repr(attr_value(X, h))[:200], rebuilt=repr(attr_value(X, h2))[:200], dictionary=repr(dct)[:200])
+                nested_renamed = any(hasattr(f.ftype, "_DressingClass") and f.ftype._DressingClass._rename for f in type(h)._XoStruct._fields)
+                bad(f"dict:value:{'nested-hybrid-with-renamed-field' if nested_renamed else 'plain'}", cls=type(h).__name__, original=repr(attr_value(X, h))[:200], rebuilt=repr(attr_value(X, h2))[:200], dictionary=repr(dct)[:200])
             if h is d:
                 for nm, dv in (("p", 1.5), ("q", 7), ("f", 2.0)):
                     if (getattr(d, nm) == dv) != (nm not in dct):
@@ -295,7 +300,7 @@ def run_c19(tier, seed):
         "evaluations": evals, "distinct_nontrivial": len(distinct),
         "rule": "hybrid classes with/without defaults and default factories, renamed fields, nested hybrids, values incl. values equal to the defaults: "
                 "from_dict(to_dict(h)) == h and default elision; reference-free structs and 1-d arrays of the grammar slice: T(x._to_json()) == x; distinct by (class, value)",
-        "exhaustive": False, "violations": violations[:6], "samples": [],
+        "exhaustive": False, "violations": violations[:6], "samples": samples,
     }
 
 
